@@ -4,8 +4,8 @@ from harness import ll_common as ll
 PROPERTY = "C02"
 STATEFUL = True
 READY = True
-THEOREMS = ["C02.sets_closed", "C02.fuel_enough", "C02.det_complete", "C02.fact_lang_eq", "C02.exact", "C02.reject_raises", "C02.smart_indep",
-            "C02.ll1_as_written_unambiguous_partial"]
+THEOREMS = ["C02.sets_closed", "C02.sets_exact", "C02.fuel_enough", "C02.det_complete", "C02.fact_lang_eq", "C02.exact", "C02.reject_raises", "C02.smart_indep",
+            "C02.conflict_report_exact", "C02.ll1_as_written_unambiguous"]
 RULE = ("one case = one generated grammar (generators as C01, more LL(1)-ish ones), constructed with "
         "smart_factorization True and False, each followed by every token string up to the tier's length plus "
         "sampled sentences (members) ; non-trivial = grammar accepted with is_ambiguous() False for at least one "
@@ -13,9 +13,13 @@ RULE = ("one case = one generated grammar (generators as C01, more LL(1)-ish one
 TRUSTED = ["re (lexemes are found by the harness with the tokenizer's own pattern)"]
 ASSUMPTIONS = ["hypotheses of C02.exact / reject_raises / smart_indep: as C01.parse_valid (start symbol is a key of `productions`, "
                "no lexeme named $END$)",
-               "'LL(1) as written => is_ambiguous() False' is proved only as 'is_ambiguous() False <=> the computed predict sets of the "
-               "factorised rules are pairwise disjoint' (C02.ll1_as_written_unambiguous_partial); exactness of the computed sets and the "
-               "transfer through factorisation rest on the oracle (independent FIRST/FOLLOW on the user's grammar)"]
+               "'LL(1) as written' is about grammars in which every non-terminal has at least one alternative: with a key whose "
+               "alternatives list is empty, {'E':[('X','b')],'X':[('Z','a'),('Z','a','b')],'Z':[]} has pairwise disjoint (empty) predict "
+               "sets for X yet is_ambiguous() is True; such keys are generated in the malformed stream only and the LL(1) clause of the "
+               "oracle skips them",
+               "in C02.ll1_as_written_unambiguous 'LL(1) as written' is stated with the model's own nullable/FIRST/FOLLOW functions "
+               "applied to the user's productions (proved to be the least sets: C02.sets_exact); the oracle uses an independent "
+               "FIRST/FOLLOW computation"]
 
 
 def impl(case):
@@ -97,8 +101,11 @@ LEVEL_TEXT = ("Kernel-checked on the executable model, for ALL grammars and toke
               "with the closure conditions read off the nullable/FIRST/FOLLOW loops and the table, C02.sets_closed (the loops never "
               "run out of fuel, C02.fuel_enough); factorisation "
               "preserves the language, C02.fact_lang_eq), identically for both smart_factorization values (C02.smart_indep); every "
-              "non-sentence ends in ParsingError (C02.reject_raises). The clause 'LL(1) as written is reported unambiguous' is "
-              "partial (see ASSUMPTIONS). model = code by a differential run incl. nullables, FIRST, FOLLOW and table as diagnostics.")
+              "non-sentence ends in ParsingError (C02.reject_raises); the computed FIRST/FOLLOW sets are the least sets "
+              "(C02.sets_exact), the conflict report is exact (C02.conflict_report_exact) and a grammar that is LL(1) as written "
+              "- every non-terminal having at least one alternative - is reported as not ambiguous (C02.ll1_as_written_unambiguous, "
+              "full strength). model = code by a differential run incl. nullables, FIRST, FOLLOW and table as diagnostics, call "
+              "sequences on one parser object and is_ambiguous() before and after the parses.")
 LEVEL_NOTE = ("Trusted: Lean kernel (axioms propext, Classical.choice, Quot.sound), harness adapter/oracle (memoised CFG recogniser, "
               "independent FIRST/FOLLOW), sampled correspondence.")
 TECHNIQUE = "Lean 4 theorems (fixpoint exits, structural induction on derivation trees) + differential testing against the real LLParser"
